@@ -98,6 +98,10 @@ def source_table(thorough):
     for rep in (1, 2):
         for extra in (1, 3):
             E("FileSource<u32>", {"repeat": rep, "extra": extra}, "ramp", 9)
+    # the same for a SigMF recording whose data file ends inside a sample
+    for rep in (1, 2, 3):
+        for n, extra in ((9, 1), (9, 3), (1024, 2)):
+            E("SigMFSource<i32>", {"repeat": rep, "extra": extra}, "small", n)
     # ... also when the whole samples end exactly at a read boundary (a read = the free output
     # space; the stream holds 1024 u32), so that the stray bytes arrive alone in the next read
     for rep in (2, 3):
